@@ -106,7 +106,12 @@ def parseBeh : Option String → Option Beh
   | some "errpanic" => some ⟨[false], true, false⟩
   | some "errbad" => some ⟨[false, true], false, true⟩
   | some "twicepanic" => some ⟨[true, true], true, false⟩
+  | some "latebad" => some ⟨[true], false, true⟩
   | _ => none
+
+/-- the `late` scripts complete AFTER the call returned: (what the handler does inside the call, what it plays later) -/
+def splitLate (name : Option String) (b : Beh) : Beh × List Bool :=
+  if name == some "late" || name == some "latebad" then ({ b with comps := [] }, b.comps) else (b, [])
 
 /-- `d:<hex type id>=<hex value|err>` hints: what the serializer makes of the payload per declared type -/
 def parseHints (ws : List String) : List (Bytes × Option Bytes) :=
@@ -332,12 +337,14 @@ def step (s : St) (line : String) : St × String :=
       match (kvNat ws "col").bind s'.store, kvHex ws "route", kvHex ws "data", parseBeh (kv ws "beh"), kv ws "ser" with
       | some (_, st), some route, some data, some beh, some ser =>
         let dec : Option DecoderX := if ser == "nil" then none else some (hintDecoderX ws)
-        (s', showExec (callWithSerializeX st.built dec route (parseCtx ws) data (parseCb ws) beh) "")
+        let (inCall, late) := splitLate (kv ws "beh") beh
+        (s', showExec ((callWithSerializeX st.built dec route (parseCtx ws) data (parseCb ws) inCall).thenLate (parseCb ws) beh.bad late) "")
       | _, _, _, _, _ => (s', "bad-op")
     | some "call" =>
       match (kvNat ws "col").bind s'.store, kvHex ws "route", parseBeh (kv ws "beh") with
       | some (_, st), some route, some beh =>
-        (s', showExec (callX st.built route (parseCtx ws) (parseArg ws) (parseCb ws) beh) "")
+        let (inCall, late) := splitLate (kv ws "beh") beh
+        (s', showExec ((callX st.built route (parseCtx ws) (parseArg ws) (parseCb ws) inCall).thenLate (parseCb ws) beh.bad late) "")
       | _, _, _ => (s', "bad-op")
     | some "disp" =>
       match kvHex ws "route", kvHex ws "data", parseBeh (kv ws "beh"), kvNat ws "reqid", kvHex ws "rc" with
@@ -345,15 +352,22 @@ def step (s : St) (line : String) : St × String :=
         let cols := (parseNatList ((kv ws "cols").getD "")).filterMap fun k => (s'.store k).map (·.2.built)
         let isNotify := reqid == 0
         let hasSender := kvNat ws "snd" != some 0
+        let (inCall, late) := splitLate (kv ws "beh") beh
+        -- the function a request handler keeps is the dispatcher's closure: picky iff there is a sender, and without
+        -- a sender nothing it is invoked with is ever sent
+        let lateCb : Cb := if isNotify then none else some hasSender
+        let withLate := fun (x : Exec) => let y := x.thenLate lateCb beh.bad late; if hasSender then y else y.unsent
         if kv ws "via" == some "recv" then
           -- through Service.Receive / handleRequest: dispatcher (unless nodisp=1), then the legacy receiver
           let disp := if kv ws "nodisp" == some "1" then none else some cols
-          let r := handleRequestX disp (hintDecoderX ws) rc route data isNotify hasSender (parseLegacy (kv ws "legacy")) beh
-          (s', (if r.1.panicking then "panic " else "") ++ s!"legacy={b2s r.2} " ++ showExec { r.1 with panicking := false } s!"#{reqid}")
+          let r := handleRequestXB (kv ws "body" != some "bad") disp (hintDecoderX ws) rc route data isNotify hasSender (parseLegacy (kv ws "legacy")) inCall
+          let x := withLate r.1
+          (s', (if x.panicking then "panic " else "") ++ s!"legacy={b2s r.2} " ++ showExec { x with panicking := false } s!"#{reqid}")
         else
-        let r := dispatchX cols (hintDecoderX ws) rc route data isNotify hasSender beh
+        let r := dispatchX cols (hintDecoderX ws) rc route data isNotify hasSender inCall
+        let x := withLate r.2
         -- a Dispatch that panics returns nothing: the harness shows its zero value
-        (s', (if r.2.panicking then "panic " else "") ++ s!"ret={b2s (r.1 && !r.2.panicking)} " ++ showExec { r.2 with panicking := false } s!"#{reqid}")
+        (s', (if x.panicking then "panic " else "") ++ s!"ret={b2s (r.1 && !r.2.panicking)} " ++ showExec { x with panicking := false } s!"#{reqid}")
       | _, _, _, _, _ => (s', "bad-op")
     | _ => (s', "bad-op")
 
@@ -434,6 +448,14 @@ def judgeCall (op : String) (o : Obs) (hasCb : Bool) (beh : Beh) (cbPanicsOnBad 
           | none => "VIOLATION C13/callback-never-completed " ++ op
         | _ => "VIOLATION C13/callback-completed-twice " ++ op
 
+/-- a handler that completes AFTER the call returned (from a timer / another goroutine) with a value its completion
+function panics on: the call itself ran exactly the handler the property demands and completed nothing, then the panic
+of that late completion escaped — there is no `SafeCall` above it (Props: late_choking_completion_escapes).  User code
+outside the statement's quantifier (routes and payloads); reported, not alarmed on.  Anything else is judged as usual -/
+def lateChokes (behName : Option String) (picky : Bool) (expRan : Option String) (o : Obs) : Bool :=
+  behName == some "latebad" && picky && o.panic && o.comps.isEmpty &&
+    (match expRan with | some r => o.ran == [r] | none => false)
+
 def cbOK (h : Handler) : Bool := !h.isRequest || ((h.meth.ins[3]?).map (·.cbAssignable)).getD false
 
 def ctxOK (h : Handler) : CtxArg → Bool
@@ -511,6 +533,7 @@ def specStep (s : St) (line : String) : St × String :=
           -- and is reported, not alarmed on.  Anything else than a panic is judged like an undecodable payload.
           let serPanics := ser != "nil" && (target.map fun h => (parsePanicHints ws).contains h.argT.id).getD false
           if serPanics && o.panic && o.ran.isEmpty && o.comps.isEmpty then (s', "ok outside-statement serializer-panics")
+          else if lateChokes (kv ws "beh") picky expRan o then (s', "ok outside-statement late-completion-chokes-outside-safecall")
           else (s', judgeCall op o hasCb beh picky target expRan decoded.isSome "")
         | _, _, _, _ => (s', "bad-op")
       | some "call" =>
@@ -526,7 +549,8 @@ def specStep (s : St) (line : String) : St × String :=
             | some h =>
               if ctxOK h ctx && argOK h && cbOK h && (h.isRequest || !hasCb) then some (showRan h (ctx != .nil) arg) else none
             | none => none
-          (s', judgeCall op o hasCb beh picky target expRan true "")
+          if lateChokes (kv ws "beh") picky expRan o then (s', "ok outside-statement late-completion-chokes-outside-safecall")
+          else (s', judgeCall op o hasCb beh picky target expRan true "")
         | _, _, _ => (s', "bad-op")
       | some "disp" =>
         match kvHex ws "route", parseBeh (kv ws "beh"), kvNat ws "reqid", kvHex ws "rc" with
@@ -551,6 +575,19 @@ def specStep (s : St) (line : String) : St × String :=
           -- who gets the request
           let wantRet := b2s tgt.isSome
           let wantLegacy := b2s (tgt.isNone && legacy != .absent)
+          -- the fall-through of handleRequest deserialises the body before anything else and panics when it cannot
+          -- (`body=bad`: a type name the process does not know): a request no collection has the route of is answered
+          -- "no method" (if it reached Dispatch and can be answered) and then the panic escapes — the legacy path's own
+          -- `panic(err)`, outside the statement (Props: handle_request_unknown_route_bad_body_escapes), reported, not alarmed on
+          if viaRecv && kv ws "body" == some "bad" && tgt.isNone then
+            let fromApi := if toApi && hasCb && hasSender then ["f:err" ++ sfx] else []
+            if o.panic && o.ran.isEmpty && o.comps == fromApi && kv (words obs) "legacy" == some "0" then
+              (s', "ok outside-statement undeserialisable-body-panics-in-legacy-path")
+            else if !o.ran.isEmpty then (s', s!"VIOLATION C13/wrong-handler-or-argtype nothing may run, ran {o.ran} :: {op}")
+            else if !fromApi.isEmpty && !o.comps.contains ("f:err" ++ sfx) then (s', "VIOLATION C13/callback-never-completed " ++ op)
+            else if o.comps != fromApi then (s', s!"VIOLATION C13/callback-completed-twice responses {o.comps} :: {op}")
+            else (s', "VIOLATION C13/dispatch-wrong-collection handleRequest with an undeserialisable body went on to the legacy receiver :: " ++ op)
+          else
           if !viaRecv && !o.panic && o.ret != some wantRet then
             (s', s!"VIOLATION C13/dispatch-wrong-collection Dispatch returned {o.ret} want {wantRet} :: {op}")
           else if viaRecv && !o.panic && kv (words obs) "legacy" != some wantLegacy then
@@ -577,6 +614,7 @@ def specStep (s : St) (line : String) : St × String :=
               (s', if !fromApi.isEmpty && !fromLegacy.isEmpty then "ok outside-statement legacy-receiver-answers-after-no-method" else "ok")
             else if !fromApi.isEmpty && !o.comps.contains ("f:err" ++ sfx) then (s', "VIOLATION C13/callback-never-completed " ++ op)
             else (s', s!"VIOLATION C13/callback-completed-twice responses {o.comps} :: {op}")
+          else if lateChokes (kv ws "beh") hasCb expRan o then (s', "ok outside-statement late-completion-chokes-outside-safecall")
           else
             (s', judgeCall op o hasCb beh true tgt expRan decoded.isSome sfx)
         | _, _, _, _ => (s', "bad-op")
